@@ -486,7 +486,7 @@ func c16Pressure(c *fw.Ctx, r *rand.Rand, idx int) {
 		return
 	}
 	s.send("position startpos moves e2e4") // the loop now waits in Halt for the parked search
-	time.Sleep(70 * time.Millisecond)       // every move-time limit expires meanwhile
+	time.Sleep(70 * time.Millisecond)      // every move-time limit expires meanwhile
 	s.gate.open()
 	curGate.Store(s.gate)
 	gm := s.send("go infinite")
